@@ -10,7 +10,7 @@ package plot
 // pushed into that buffer. Ownership makes distinct series have distinct buffers.
 //@ ghostfield ists bool
 //@ ghostfield towner int
-//@ spec func TSINV() bool = forall t *timeSeries :: ists(t) ==> t != nil && t.data != nil && t.len == pushed(t.data) && t.len >= 0 && towner(t.data) == ref(t)
+//@ spec func TSINV() bool = forall t *plot.timeSeries :: ists(t) ==> t != nil && t.data != nil && t.len == pushed(t.data) && t.len >= 0 && towner(t.data) == ref(t)
 
 //@ func newTimeSeries
 //@   property C17
@@ -20,7 +20,7 @@ package plot
 //@   ensures [empty-series] result != nil && fresh(result) && result.attack == attack && result.label == label && result.len == 0 && result.prev == 0
 //@              && result.data != nil && fresh(result.data) && pushed(result.data) == 0
 //@   ensures [series-invariant] TSINV() && ists(result)
-//@   ensures [other-series-untouched] forall t *timeSeries :: t != result ==> ists(t) == old(ists(t))
+//@   ensures [other-series-untouched] forall t *plot.timeSeries :: t != result ==> ists(t) == old(ists(t))
 
 // timeSeries.add: a point is pushed exactly once, or rejected (time going backwards) leaving everything unchanged.
 //@ func (*timeSeries).add
@@ -28,7 +28,7 @@ package plot
 //@   pragma closedheap yes
 //@   requires [non-nil] ts != nil && ts.data != nil && errMonotonicTimestamp != nil
 //@   requires [series-invariant] TSINV() && ists(ts)
-//@   ensures [series-invariant] TSINV() && (forall t *timeSeries :: ists(t) == old(ists(t)))
+//@   ensures [series-invariant] TSINV() && (forall t *plot.timeSeries :: ists(t) == old(ists(t)))
 //@   assume   [fewer-than-2^62-points] ts.len < 4611686018427387904
 //@   modifies ts.prev, ts.len, *ts.data
 //@   ensures [rejected-leaves-series-unchanged] old(ts.prev) > t ==> result != nil && ts.prev == old(ts.prev) && ts.len == old(ts.len) && pushed(ts.data) == old(pushed(ts.data))
@@ -43,7 +43,7 @@ package plot
 //@   returns (err)
 //@   requires [series-invariant] TSINV() && (forall l string :: has(ls.series, l) ==> ists(ls.series[l])) && (forall s int :: has(ls.buf, s) ==> ists(ls.buf[s].ts))
 //@   ensures [series-invariant] TSINV() && (forall l string :: has(ls.series, l) ==> ls.series[l] != nil && ists(ls.series[l])) && (forall s int :: has(ls.buf, s) ==> ists(ls.buf[s].ts))
-//@   ensures [no-series-unmarked] forall t *timeSeries :: old(ists(t)) ==> ists(t)
+//@   ensures [no-series-unmarked] forall t *plot.timeSeries :: old(ists(t)) ==> ists(t)
 //@   requires [non-nil] ls != nil && r != nil && ls.label != nil && ls.buf != nil && ls.series != nil && errMonotonicTimestamp != nil
 //@   requires [each-sequence-number-once] r.Seq >= ls.seq && !has(ls.buf, r.Seq)
 //@   requires [buffered-points-are-pending] forall s int :: has(ls.buf, s) ==> s > ls.seq && ls.buf[s].seq == s && ls.buf[s].ts != nil && ls.buf[s].ts.data != nil
@@ -66,7 +66,7 @@ package plot
 //@     invariant ls == old(ls) && ls.buf == old(ls.buf) && ls.buf != nil && ls.seq == old(ls.seq) + released && released >= 0 && r.Seq == old(ls.seq)
 //@     invariant forall s int :: has(ls.buf, s) == ((old(has(ls.buf, s)) || s == r.Seq) && !(old(ls.seq) <= s && s < ls.seq))
 //@     invariant forall s int :: has(ls.buf, s) ==> ls.buf[s].seq == s && ls.buf[s].ts != nil && ls.buf[s].ts.data != nil && ls.buf[s].t >= ls.began
-//@     invariant TSINV() && (forall l string :: has(ls.series, l) ==> ls.series[l] != nil && ists(ls.series[l])) && (forall s int :: has(ls.buf, s) ==> ists(ls.buf[s].ts)) && (forall t *timeSeries :: old(ists(t)) ==> ists(t))
+//@     invariant TSINV() && (forall l string :: has(ls.series, l) ==> ls.series[l] != nil && ists(ls.series[l])) && (forall s int :: has(ls.buf, s) ==> ists(ls.buf[s].ts)) && (forall t *plot.timeSeries :: old(ists(t)) ==> ists(t))
 
 // dataPoints as a sort.Interface: Less compares the x column, Swap exchanges two rows.
 //@ func (dataPoints).Len
@@ -161,7 +161,7 @@ package plot
 //@   returns (err)
 //@   requires [non-nil] p != nil && r != nil
 //@   requires [series-invariant] TSINV()
-//@   ensures [series-invariant] TSINV() && (forall l string :: has(p.series[r.Attack].series, l) ==> p.series[r.Attack].series[l] != nil && ists(p.series[r.Attack].series[l])) && (forall t *timeSeries :: old(ists(t)) ==> ists(t))
+//@   ensures [series-invariant] TSINV() && (forall l string :: has(p.series[r.Attack].series, l) ==> p.series[r.Attack].series[l] != nil && ists(p.series[r.Attack].series[l])) && (forall t *plot.timeSeries :: old(ists(t)) ==> ists(t))
 //@   modifies p.series[*], p.series[r.Attack].buf[*], p.series[r.Attack].series[*], any(plot.labeledSeries), any(plot.timeSeries), any(tsz.Series)
 //@   ensures [dispatched-by-attack-name] has(p.series, r.Attack) && p.series[r.Attack] != nil
 //@   ensures [other-attacks-keep-their-series] forall a string :: a != r.Attack ==> has(p.series, a) == old(has(p.series, a)) && p.series[a] == old(p.series[a])
